@@ -9,7 +9,7 @@ def run(ctx, ps, gen_bad):
     if ctx.quick:
         wl = [('crashmix', 22, 3000, True, 240), ('crashmix', 22, 3000, False, 140), ('crashmix', 14, 9000, True, 140), ('unstablemix', 24, 3000, True, 160),
               # a 720-block file cut down / removed / renamed over: crash points inside the multi-transaction background free
-              ('bigshrink', 0, 3000, True, 30, ctx.seed * 4 + 2), ('bigshrink', 0, 3000, True, 30, ctx.seed * 4 + 5),
+              ('bigshrink', 0, 3000, True, 30, ctx.seed * 4 + 4), ('bigshrink', 0, 3000, True, 30, ctx.seed * 4 + 5),
               ('refused', 0, 3000, True, 60, ctx.seed * 4 + 1),
               # recorded from the empty disk on: the window in which the root directory exists only in the log
               ('firstboot', 0, 3000, True, 60, ctx.seed)]
